@@ -242,14 +242,14 @@ def check(ctx):
         ctx.tlc_mc("MC_" + MODULE, "MC_BinanceL2_thorough.cfg", timeout=1800, coverage=False)
         ctx.tlc_mc("MC_" + MODULE, "MC_BinanceL2_long.cfg", timeout=1800, coverage=False)
     p_t, scn_t = ctx.tlc_gen("Gen_" + MODULE, "GenT_BinanceL2.cfg" if ctx.quick else "GenT_BinanceL2_thorough.cfg", "transitions.ndjson", timeout=900)
-    nb = 100 if ctx.quick else 1500
+    nb = 100 if ctx.quick else 1000
     p_b, scn_b = ctx.tlc_gen("Gen_" + MODULE, "GenB_BinanceL2.cfg", "behaviours.ndjson", simulate=(nb, 50), timeout=1200)
     t0 = dict(scn_t[len(scn_t) // 2])
     ctx.sample({"kind": "TLC delivery sequence (one instrument, exhaustive)", "scenario": t0})
     b0 = dict(scn_b[0])
     b0["steps"] = b0["steps"][:6]
     ctx.sample({"kind": "TLC simulated behaviour, two instruments (first 6 of %d steps)" % len(scn_b[0]["steps"]), "scenario": b0})
-    segments = 8 if ctx.quick else 300
+    segments = 8 if ctx.quick else 120
     run_scenarios(ctx, p_t, scn_t, MODES, "transitions")
     run_scenarios(ctx, p_b, scn_b, MODES, "behaviours")
     traces = []
